@@ -271,7 +271,7 @@ def install_degree_blocks(reg, src):
         else:
             combos.append({"node": cse, "phase": 0})
 
-    @reg.contract("lemma:block:_compute_degree_iterative", props=["C15", "C04"], cases={"__combos__": combos})
+    @reg.contract("lemma:block:_compute_degree_iterative", props=["C15", "C04", "C06", "C08"], cases={"__combos__": combos})
     def _(c):
         ip = c.ip
         sp = Spec(ip)
